@@ -7,3 +7,9 @@ pub fn alloc_fill_v(e: u8, n: usize) -> (r: Vec<u8>)
     requires n <= 2 * alloc_budget() + 128, // [alloc.bounded_by_input_length]
     ensures r@ == filled(e, n as nat)
 { unimplemented!() }
+// Vec::with_capacity(n) (rule R25): an allocation of n elements up front
+#[verifier::external_body]
+pub fn vec_with_capacity_v<T>(n: usize) -> (r: Vec<T>)
+    requires n <= 2 * alloc_budget() + 128, // [alloc.bounded_by_input_length]
+    ensures r@ == Seq::<T>::empty()
+{ unimplemented!() }
